@@ -19,7 +19,10 @@ PROBES = [(512, 1024, 1536)] + [(b, b, b) for b in (512, 768, 1024, 1536, 2048, 
 SECOND = (2048, 3072, 4096)
 SHA1, SHA256 = 'diffie-hellman-group-exchange-sha1', 'diffie-hellman-group-exchange-sha256'
 ALGSETS = {'sha256': [SHA256], 'sha1': [SHA1], 'both': [SHA1, SHA256]}
-BANNERS = {'openssh': 'SSH-2.0-OpenSSH_8.0', 'dropbear': 'SSH-2.0-dropbear_2020.81'}
+BANNERS = {'openssh': 'SSH-2.0-OpenSSH_8.0', 'dropbear': 'SSH-2.0-dropbear_2020.81',
+           # other ways an OpenSSH server introduces itself
+           'openssh-win': 'SSH-2.0-OpenSSH_for_Windows_8.1', 'openssh-deb': 'SSH-2.0-OpenSSH_9.2p1 Debian-2+deb12u3', 'openssh-199': 'SSH-1.99-OpenSSH_3.9p1', 'openssh-10': 'SSH-2.0-OpenSSH_10.0', 'openssh-bare': 'SSH-2.0-OpenSSH',
+           'libssh': 'SSH-2.0-libssh_0.10.6', 'unknown': 'SSH-2.0-Custom_Server_1.0'}
 SMALL = re.compile(r'using small (\d+)-bit modulus')
 W2048 = '2048-bit modulus only provides 112-bits of symmetric strength'
 FALLBACK = re.compile(r"GEX fallback mechanism was triggered.*modern clients will use (\d+)\.")
@@ -39,6 +42,40 @@ def ref_expected(moduli, style, openssh):
             return {None, 2048}, None
         return {s}, (s if s != 2048 else None)
     return {m}, None
+
+
+def simulate_with_lost_probe(moduli, style, openssh, lost):
+    """The documented probe loop against the server model when the probe number `lost` (0 = the 512/1024/1536 one,
+    1..7 = the fixed sizes, 8 = the OpenSSH follow-up) gets no answer.  Returns the set of acceptable reported sizes."""
+    srv = fakenet.Server(moduli=list(moduli), gex_style=style)
+    first = None if lost == 0 else srv.choose_modulus(*PROBES[0])
+    out = set()
+    if lost == 0:
+        out.add(None)           # a failed re-connection before the first probe ends the measurement of this algorithm
+    smallest = first or 0
+    for j, bits in enumerate((512, 768, 1024, 1536, 2048, 3072, 4096), start=1):
+        if bits >= smallest > 0:
+            break
+        ans = None if lost == j else srv.choose_modulus(bits, bits, bits)
+        if ans and (smallest <= 0 or ans < smallest):
+            smallest = ans
+    if smallest == 2048 and openssh:
+        s2 = None if lost == 8 else srv.choose_modulus(*SECOND)
+        out |= {None, 2048} if s2 is None else {s2}
+    else:
+        out.add(smallest if smallest > 0 else None)
+    return out
+
+
+def make_cases_lostprobe():
+    """One connection of the group-exchange phase fails (any way a connection can fail); the probing must go on."""
+    fl = [['connect', 'close'], ['connect', 'stall'], ['connect', 'refuse'], ['connect', 'timeout'], ['banner', 'close'], ['kexinit', 'close'], ['kexinit', 'stall'], ['gex_group', 'close'], ['gex_group', 'stall'], ['gex_group', 'reset']]
+    for moduli in ([768, 2048], [1024, 3072], [1536, 4096], [768, 1024, 4096], [2048, 3072], [512, 8192], [1024], [3072]):
+        for style in ('prefup', 'roundup', 'strict', 'openssh'):
+            for what, f in fl:
+                for idx in range(2, 10):
+                    for banner in ('openssh', 'dropbear'):
+                        yield {'moduli': moduli, 'style': style, 'algs': 'sha256', 'banner': banner, 'family': 'lostprobe', 'fault': [what, idx, f], 'renderings': ['json']}
 
 
 def make_cases_stated():
@@ -64,12 +101,23 @@ def make_cases_peralg():
                     yield {'moduli': a, 'moduli256': b, 'style': style, 'algs': 'both', 'banner': banner, 'family': 'peralg'}
 
 
+def make_cases_banners():
+    for b in BANNERS:
+        for moduli in ([], [3072], [4096], [2048], [2048, 4096], [1024, 3072], [6144]):
+            for style in ('openssh', 'roundup'):
+                for algs in ('sha256', 'both'):
+                    yield {'moduli': moduli, 'style': style, 'algs': algs, 'banner': b, 'family': 'stated'}
+
+
 def make_cases_extension():
     # sizes next to the rating thresholds and not multiples of 8 (real moduli files hold 2047/3071-bit entries)
     for a in NEAR:
         for banner in ('openssh', 'dropbear'):
             yield {'moduli': [a], 'style': 'roundup', 'algs': 'sha256', 'banner': banner, 'family': 'extension'}
             yield {'moduli': [a, 8192], 'style': 'roundup', 'algs': 'both', 'banner': banner, 'family': 'extension'}
+    for combo in itertools.combinations(SIZES, 2):
+        for banner in ('openssh', 'dropbear'):
+            yield {'moduli': list(combo), 'style': 'prefup', 'algs': 'both', 'banner': banner, 'family': 'extension'}
     grid = list(range(512, 8193, 256))
     for k in (1, 2, 3):
         for combo in itertools.combinations(grid, k):
@@ -119,14 +167,37 @@ def _check_notes(alg, size, notes, fallback_size, fails, tag):
         fails.append(['fallback-note', '%s %s: size=%r fallback-notes=%r expected=%r' % (tag, alg, size, fb, exp_fb)])
 
 
+def eval_slow(case):
+    """Engine B: a server that answers every message late but well within the timeout.  All waits together exceed
+    the timeout several times over; each connection is nevertheless entitled to its own."""
+    algs = ALGSETS[case['algs']]
+    spec = {'banner': BANNERS[case['banner']], 'kex': ['curve25519-sha256'] + algs, 'hostkeys': {'ssh-ed25519': {'t': 'ed25519'}}, 'moduli': case['moduli'], 'gex_style': case['style'], 'reply_delay': case['delay']}
+    peer = fakenet.peer_from_spec(spec)
+    with drive.RealServers([peer]) as rs:
+        r = drive.run_subprocess(['-n', '-j', '--skip-rate-test', '-t', str(case['timeout']), '-p', str(rs.ports[0]), '127.0.0.1'], timeout=240)
+    fails = []
+    want, fb = ref_expected(case['moduli'], case['style'], case['banner'].startswith('openssh'))
+    if r.code not in (0, 2, 3):
+        fails.append(['slow-peer-not-audited', 'exit %d: %r' % (r.code, r.out[-300:])])
+    else:
+        got = _sizes_and_notes_json(json.loads(r.out))
+        for alg in algs:
+            size = got.get(alg, (None, {}))[0]
+            if size not in want:
+                fails.append(['size-mismatch-slow-peer', '%s: reported %r, reference %r (moduli=%r style=%s, every reply %.1fs late, timeout %ss)' % (alg, size, sorted(want, key=str), case['moduli'], case['style'], case['delay'], case['timeout'])])
+    return mkres(case, nt=True, classes=['engine-B', 'slow-peer'], fails=fails)
+
+
 def eval_case(case):
+    if case.get('family') == 'slow':
+        return eval_slow(case)
     algs = ALGSETS[case['algs']]
     spec = {'banner': BANNERS[case['banner']], 'kex': ['curve25519-sha256'] + algs, 'hostkeys': {'ssh-ed25519': {'t': 'ed25519'}}, 'moduli': case['moduli'], 'gex_style': case['style']}
     if case.get('moduli256') is not None:
         spec['moduli_by_alg'] = {SHA1: case['moduli'], SHA256: case['moduli256']}
     if case.get('fault'):
         spec['faults'] = [case['fault']]
-    openssh = case['banner'] == 'openssh'
+    openssh = case['banner'].startswith('openssh')
     fails = []
     want, fb = ref_expected(case['moduli'], case['style'], openssh)
     want_by = {SHA1: (want, fb), SHA256: ref_expected(case['moduli256'], case['style'], openssh) if case.get('moduli256') is not None else (want, fb)}
@@ -202,6 +273,12 @@ def eval_case(case):
                     fails.append([sig, '%s %s: reported %r, reference %r (moduli=%r style=%s banner=%s; handed out %r)' % (rend, alg, size, sorted(want, key=str), case['moduli'], case['style'], case['banner'], delivered)])
                 _check_notes(alg, size, notes, fb, fails, rend)
             else:
+                if case['family'] == 'lostprobe':
+                    ok = set()
+                    for lost in [None] + list(range(9)):
+                        ok |= simulate_with_lost_probe(case['moduli'], case['style'], openssh, lost)
+                    if size not in ok:
+                        fails.append(['size-wrong-after-one-failed-probe', '%s %s: reported %r; with any single probe unanswered the documented sequence gives %r (moduli=%r style=%s fault %r; delivered %r)' % (rend, alg, size, sorted(ok, key=str), case['moduli'], case['style'], case['fault'], delivered)])
                 if size is not None and size not in delivered:
                     fails.append(['size-not-from-a-delivered-group', '%s %s: reported %r but well-formed groups delivered were %r (fault %r)' % (rend, alg, size, delivered, case['fault'])])
                 _check_notes(alg, size, notes, size if any(FALLBACK.search(t) for t in notes.get('info', [])) else None, fails, rend)
@@ -235,15 +312,26 @@ def run(ctx):
         ctx.rng.shuffle(faults)
         faults = faults[:800]
     ctx.map(faults)
+    slow = [{'family': 'slow', 'moduli': [512, 1024, 2048], 'style': 'strict', 'algs': 'sha256', 'banner': 'dropbear', 'delay': 0.5, 'timeout': 3},
+            {'family': 'slow', 'moduli': [768, 3072], 'style': 'prefup', 'algs': 'sha256', 'banner': 'openssh', 'delay': 0.4, 'timeout': 3}]
+    if not ctx.quick:
+        slow += [{'family': 'slow', 'moduli': m, 'style': st_, 'algs': a, 'banner': b, 'delay': d, 'timeout': 3} for m in ([1024, 4096], [2048, 3072], [1536]) for st_ in ('strict', 'openssh') for a in ('sha1', 'both') for b in ('openssh', 'dropbear') for d in (0.3, 0.6)]
+    ctx.map(slow, chunk=1)
+    ctx.map(list(make_cases_banners()))
+    lp = list(make_cases_lostprobe())
+    if ctx.quick:
+        ctx.rng.shuffle(lp)
+        lp = lp[:1500]
+    ctx.map(lp)
     pa = list(make_cases_peralg())
     ctx.map(pa)
     ext = list(make_cases_extension())
     if ctx.quick:
-        head, tail = ext[:4 * len(NEAR)], ext[4 * len(NEAR):]
+        head, tail = ext[:4 * len(NEAR) + 72], ext[4 * len(NEAR) + 72:]
         ctx.rng.shuffle(tail)
         ext = head + tail[:600]
     ctx.map(ext)
-    ctx.note(stated_domain=len(stated), stated_run=len(part), fault_cases=len(faults), extension_cases=len(ext),
+    ctx.note(stated_domain=len(stated), stated_run=len(part), fault_cases=len(faults), lost_probe_cases=len(lp), extension_cases=len(ext),
              explanation='stated domain = every subset of the nine sizes x 3 styles x 3 alg sets x 2 banners; exhaustive flag refers to that domain')
     return ctx.finish('exploration', 'cases are enumerated server moduli policies (stated domain, extension grid of 256-bit steps, fault family); distinct = distinct case dict; non-trivial = >=2 moduli, or OpenSSH-fallback style, or 2048/3072 in the set, or a fault in the GEX phase',
                       assumptions=['engine A (in-process CLI over the virtual network) is faithful; sampled A/B agreement is checked in C09/C15', 'moduli are 2^(n-1)+1: only the bit length matters to the tool'])
